@@ -184,10 +184,10 @@ func Harness_C03_refs() {
 }
 
 // Harness_C03_refs_deletions: deletion records hide older records; the stack view drops them, the raw view shows them.
-// bounds: 2..3 stub tables, each a non-empty subset of {a,b}, every record a value or a deletion; both views; seek key "" or any 1-byte string
+// bounds: 1..3 stub tables (a single table matters: nothing to merge, deletions must still be hidden), each a subset of {a,b}, every record a value or a deletion; both views; seek key "" or any 1-byte string
 // covers: done
 func Harness_C03_refs_deletions() {
-	mergedRefsHarness(VerifIntRange(2, 3), "ab", true, VerifChoose(2) == 1, symString(VerifIntRange(0, 1)))
+	mergedRefsHarness(VerifIntRange(1, 3), "ab", true, VerifChoose(2) == 1, symString(VerifIntRange(0, 1)))
 }
 
 func mergedLogsHarness(k int, kinds bool, suppress bool) {
@@ -251,10 +251,10 @@ func Harness_C03_logs() {
 }
 
 // Harness_C03_logs_deletions: reflog deletion records hide older entries; the stack view drops them.
-// bounds: 2 stub tables, subsets as above, every entry a record or a deletion; both views
+// bounds: 1..2 stub tables, subsets as above, every entry a record or a deletion; both views
 // covers: done
 func Harness_C03_logs_deletions() {
-	mergedLogsHarness(2, true, VerifChoose(2) == 1)
+	mergedLogsHarness(VerifIntRange(1, 2), true, VerifChoose(2) == 1)
 }
 
 // Harness_C03_heap: the priority queue always hands out a minimum (key order, newest table first among equal keys).
